@@ -7,7 +7,7 @@ from .state import SV, State, VCError, Display, PyFunc, Obligation, fresh, fresh
 from .expr import ExprMixin, I, S, is_pystr
 from .evalx import EvalMixin
 from .calls import CallMixin
-from .stmt import StmtMixin
+from .stmt import StmtMixin, _mutable_container
 
 @functools.lru_cache(maxsize=None)
 def _parse_expr(src):
@@ -291,6 +291,7 @@ class Executor(CallMixin, EvalMixin, ExprMixin, StmtMixin):
                 continue
             v = SV(ty, fresh(n, ty))
             self.assume_wf(st, v)
+            if _mutable_container(ty): v.mark = ("param", n, False)
             st.env[n] = v
             self.current_inputs[n] = v
         for g, ty in c.ghost.items():
@@ -345,6 +346,11 @@ class Executor(CallMixin, EvalMixin, ExprMixin, StmtMixin):
         while top: s, e = top.pop(0); yield "raise", s, e
 
     def check_post(self, c, st, val, fnode, old):
+        for n_ in c.params:
+            v_ = st.env.get(n_)
+            if isinstance(v_, SV) and v_.mark == ("param", n_, True) and n_ not in c.mutates:
+                # callers see the update (same object), but the contract does not speak about it: the contract must declare mutates=[...]
+                self.oblige(st, z3.BoolVal(False), "parameter-%s-updated-in-place-but-not-declared-in-mutates" % n_, fnode)
         s = st.fork(); s.env = dict(old.env)
         # parameters that are mutated in place are visible in their final state
         for m in c.mutates:
